@@ -146,3 +146,4 @@ check("C17",
       design_ref="DESIGN.md 5/C17",
       level_text="exhaustive within the depth bound",
       level_note="unsubscribe racing with a burst of events is covered by the scheduler cells")
+CHECKS["C19"]["packages"] = ["l1chan", "l2node"]
